@@ -6,6 +6,8 @@ import HdVerif.Generated.T8d
 import HdVerif.Generated.T8e
 import HdVerif.Generated.T8f
 import HdVerif.Generated.T8g
+import HdVerif.Generated.T8p
+import HdVerif.Generated.T8q
 /-! C02: the read side of `highdicom.seg.Segmentation` (`seg/sop.py`).
 
 `Segmentation._get_pixels_by_seg_frame` as written — the validation head, the LABELMAP branch (`need_remap`,
@@ -95,6 +97,15 @@ structure Stored where
   frames : List SFrame
   refs : List Nat := []  -- the source instances the object references (its `InstanceUIDs` table), as opaque numbers
   frameSrcs : List Nat := []  -- the instances frames derive from (`ReferencedSOPInstanceUID` column of the frame table)
+  tiledFull : Bool := false   -- DimensionOrganizationType TILED_FULL (`_is_tiled_full`)
+  -- `_locations_preserved`: `some true` = every source image item says SpatialLocationsPreserved YES, `some false` = some item
+  -- says NO, `none` = otherwise (some item does not say, or REORIENTED_ONLY)
+  locPreserved : Option Bool := some true
+  singleSource : Bool := true -- every frame derives from exactly one source frame (`_single_source_frame_per_frame`)
+  -- ReferencedSegmentNumber is a dimension index of the object (BINARY / FRACTIONAL): the frame table then has the column the
+  -- channel query joins on; an object that carries the Segment Identification macro only in the shared functional groups
+  -- (or does not index by it) has no such column and every read by segment fails (KeyError / sqlite3.OperationalError)
+  segIndexed : Bool := true
   deriving Repr, Inhabited
 
 structure Req where
@@ -105,6 +116,7 @@ structure Req where
   rescale : Bool
   skipOverlap : Bool
   dtype : Option DType
+  ignoreSpatial : Bool := false   -- `ignore_spatial_locations` (by source instance / source frame only)
   deriving Repr, Inhabited
 
 /-- result arrays: `combined[frame][pixel]`; `stacked[frame][channel][pixel]`, every entry meaning `value / denom`
@@ -270,7 +282,8 @@ def stackRead (st : Stored) (rq : Req) (d : DType) (willRescale : Bool) : Except
 /-! ### `_get_pixels_by_seg_frame` -/
 
 def readCore (st : Stored) (rq : Req) : Except ErrKind Out := do
-  if !(rq.segs.all fun s => st.segNums.contains s) then .error .value else
+  -- every requested number is described, none is requested twice (`Gen.requestAdmitted`, T8p)
+  let _ ← requestAdmitted (rq.segs.all fun s => st.segNums.contains s) ((uniq rq.segs).length : Int) (rq.segs.length : Int)
   let (mo, willRescale, dc) ← readHead rq.combine rq.relabel rq.rescale (rq.dtype.map DType.code)
       rq.segs.length (listMax rq.segs) (st.type == .fractional) st.mfv
   let d ← (match DType.ofCode dc with | some x => .ok x | none => .error .value : Except ErrKind DType)
@@ -315,9 +328,20 @@ def effective (st : Stored) (mode : Mode) : Stored :=
   | .frame uid => if st.frameSrcs.contains uid then st else { st with frames := [] }
   | _ => st
 
+/-- `_check_indexing_with_source_frames` (`Gen.sourceIndexingAllowed`, T8q) refuses; only the two entry points that index by
+source apply it (`Gen.indexingChecked`), before anything else -/
+def sourceIndexingRefused (st : Stored) (mode : Mode) (ignoreSpatial : Bool) : Bool :=
+  match mode with
+  | .bySource | .frame _ =>
+    !(sourceIndexingAllowed ignoreSpatial st.tiledFull (st.locPreserved == none) (st.locPreserved == some false)
+        st.singleSource).isOk
+  | _ => false
+
 def read (st : Stored) (mode : Mode) (assertMissing : Bool) (rq : Req) : Except ErrKind Out := do
+  if sourceIndexingRefused st mode rq.ignoreSpatial then .error .runtime else
   if rq.segs.isEmpty then .error .value else
   if rq.keys.isEmpty then .error .value else
+  if st.type ≠ .labelmap && !st.segIndexed then .error .key else
   if !framesUnique st then .error .runtime else
   if entryRefuses st mode assertMissing rq.keys then .error .key else
   readCore (effective st mode) rq
